@@ -115,8 +115,20 @@ inductive Node
 
 abbrev Marks := List Node
 
+/-- VARIANT SECTION.  Three small repairs of the -m code paths were proposed for
+tool/trimmer/trim/mark.go (prefix rule in traceExtendMethod; an `extends` needed by a later trace is
+not cut; the include of a cut base is not marked).  Each flag selects the repaired code; all flags
+`false` is the code before the repairs.  `checks/c16.py` probes the implementation for the variant
+it has and passes it to both sides; every theorem is proved for all values of the flags. -/
+structure Fix where
+  prefixRule : Bool               -- traceExtendMethod applies `funcName == pat || !HasPrefix(funcName, pat)`
+  retract : Bool                  -- keepServiceExtends / extKeep
+  incl : Bool                     -- extendsCut in markService; markInclude in traceExtendMethod only `if back`
+  deriving DecidableEq, Repr, Inhabited
+
 /-- -m patterns are `regexp2` expressions; `rx pat s` is `regexp2.MatchString` (a parameter). -/
 structure Cfg where
+  fix : Fix
   methods : List Bytes            -- TrimASTArg.TrimMethods as given
   force : Bool                    -- forceTrimming = !Preserve
   noComment : Bool                -- DisablePreserveComment
@@ -271,6 +283,7 @@ def hitLoose (cfg : Cfg) (ms : List Bytes) (s : Bytes) : Bool :=
 structure St where
   marks : Marks
   ext : List (Nat × Bytes)        -- extServices (markServiceExtends)
+  keep : List (Nat × Bytes)       -- extKeep (keepServiceExtends), variant `retract`
   cache : List (Nat × Bool)       -- keptPartCache
   crash : Bool
   deriving Repr
@@ -288,7 +301,11 @@ def nextSvc (p : Program) (f : Nat) (svc : Service) : Option (Nat × Service) :=
 def svcCount (p : Program) : Nat := (p.files.map (·.services.length)).sum
 
 def hitFathers (cfg : Cfg) (ms : List Bytes) (fathers : List Bytes) (fn : Function) : Bool :=
-  fathers.any (fun fa => hitLoose cfg ms (dot fa fn.name))
+  fathers.any (fun fa => if cfg.fix.prefixRule then hitStrict cfg ms (dot fa fn.name) else hitLoose cfg ms (dot fa fn.name))
+
+/-- extendsCut: cleanServiceExtends is going to cut the `extends` of this service -/
+def isCut (cfg : Cfg) (st : St) (x : Nat × Bytes) : Bool :=
+  st.ext.contains x && !(cfg.fix.retract && st.keep.contains x)
 
 /-- `currentMap[svc] = struct{}{}; t.markFunction(function, ast, filename)` -/
 def markSvcFn (p : Program) (f : Nat) (svc : Service) (st : St) (fn : Function) : St :=
@@ -300,14 +317,22 @@ def traceStep (p : Program) (cfg : Cfg) (ms : List Bytes) (fathers : List Bytes)
     (st : St) (fn : Function) : St :=
   if hitFathers cfg ms fathers fn then markSvcFn p f svc st fn else st
 
-/-- the end of traceExtendMethod: `if ret { currentMap[svc] = …; if svc.Reference != nil { markInclude } }` -/
-def traceFinish (f : Nat) (svc : Service) (r : St × Bool) : St × Bool :=
-  if r.2 then
-    ({ r.1 with marks :=
-        match svc.ref with
-        | some (_, i) => insInc f i (Node.svc f svc.name :: r.1.marks)
-        | none => Node.svc f svc.name :: r.1.marks }, true)
-  else (r.1, false)
+/-- the end of traceExtendMethod: `if ret { currentMap[svc] = …; if svc.Reference != nil { markInclude } }`
+(variant `incl`: `&& back`) -/
+def finMarks (cfg : Cfg) (f : Nat) (svc : Service) (back : Bool) (M : Marks) : Marks :=
+  match svc.ref with
+  | some (_, i) =>
+    if cfg.fix.incl && !back then Node.svc f svc.name :: M
+    else insInc f i (Node.svc f svc.name :: M)
+  | none => Node.svc f svc.name :: M
+
+def traceFinish (cfg : Cfg) (f : Nat) (svc : Service) (back : Bool) (r : St × Bool) : St × Bool :=
+  if r.2 then ({ r.1 with marks := finMarks cfg f svc back r.1.marks }, true) else (r.1, false)
+
+/-- `if !back { markServiceExtends(svc) }` (variant `retract`: `else { keepServiceExtends(svc) }`) -/
+def afterBack (cfg : Cfg) (f : Nat) (svc : Service) (r : St × Bool) : St :=
+  if r.2 then (if cfg.fix.retract then { r.1 with keep := (f, svc.name) :: r.1.keep } else r.1)
+  else { r.1 with ext := (f, svc.name) :: r.1.ext }
 
 /-- traceExtendMethod -/
 def trace (p : Program) (cfg : Cfg) (ms : List Bytes) : Nat → List Bytes → Nat → Service → St → St × Bool
@@ -317,11 +342,11 @@ def trace (p : Program) (cfg : Cfg) (ms : List Bytes) : Nat → List Bytes → N
     let ret1 := svc.fns.any (hitFathers cfg ms fathers)
     if svc.ext ≠ [] then
       match nextSvc p f svc with
-      | none => traceFinish f svc ({ st1 with crash := true }, ret1)          -- nextSvc == nil is dereferenced
+      | none => traceFinish cfg f svc false ({ st1 with crash := true }, ret1)          -- nextSvc == nil is dereferenced
       | some (g, b) =>
         let r := trace p cfg ms j (fathers ++ [b.name]) g b st1
-        traceFinish f svc (if r.2 then r.1 else { r.1 with ext := (f, svc.name) :: r.1.ext }, r.2 || ret1)
-    else traceFinish f svc (st1, ret1)
+        traceFinish cfg f svc r.2 (afterBack cfg f svc r, r.2 || ret1)
+    else traceFinish cfg f svc false (st1, ret1)
 
 /-- body of the function loop of markService -/
 def svcStep (p : Program) (cfg : Cfg) (ms : List Bytes) (f : Nat) (svc : Service) (st : St) (fn : Function) : St :=
@@ -337,9 +362,13 @@ def markService (p : Program) (cfg : Cfg) (ms : List Bytes) : Nat → Nat → Se
     let st1 := svc.fns.foldl (svcStep p cfg ms f svc) st0
     let st2 := if !ms.isEmpty && (svc.ext ≠ [] || svc.ref.isSome) then
         (trace p cfg ms (svcCount p + 1) [svc.name] f svc st1).1 else st1
-    if svc.ext ≠ [] ∧ Node.svc f svc.name ∈ st2.marks then
+    if svc.ext ≠ [] ∧ Node.svc f svc.name ∈ st2.marks ∧ (cfg.fix.incl && isCut cfg st2 (f, svc.name)) = false then
       match svc.ref with
-      | none => st2
+      | none =>
+        -- the base service lives in the same file
+        match findSvc p f svc.ext with
+        | none => st2
+        | some b => markService p cfg ms j f b st2
       | some (rn, i) =>
         match p.incTarget f i with
         | none => { st2 with crash := true }
@@ -381,12 +410,12 @@ def preProcess (p : Program) (cfg : Cfg) : Nat → Nat → St → St × Bool
   | 0, _, st => ({ st with crash := true }, false)
   | j+1, f, st => (p.file f).includes.zipIdx.foldl (preStep (preProcess p cfg j) f) (markKeptPart p cfg f st)
 
-def St.init : St := ⟨[], [], [], false⟩
+def St.init : St := ⟨[], [], [], [], false⟩
 
 def markAST (p : Program) (cfg : Cfg) : St :=
   let ms := effMethods p cfg
   let st := (preProcess p cfg (p.files.length + 1) 0 St.init).1
-  let st := (p.file 0).services.foldl (fun st svc => markService p cfg ms (p.files.length + 1) 0 svc st) st
+  let st := (p.file 0).services.foldl (fun st svc => markService p cfg ms (svcCount p + 1) 0 svc st) st
   (markKeptPart p cfg 0 st).1
 
 /-! ### traversal -/
@@ -399,9 +428,9 @@ def keepSL (cfg : Cfg) (M : Marks) (f : Nat) (k : SLKind) (s : StructLike) : Boo
   M.contains (Node.sl f k s.name) || checkPreserve cfg s
 
 /-- traversal's rewrite of a kept service plus cleanServiceExtends -/
-def sweepSvc (ms : List Bytes) (st : St) (f : Nat) (s : Service) : Service :=
+def sweepSvc (cfg : Cfg) (ms : List Bytes) (st : St) (f : Nat) (s : Service) : Service :=
   let fns := if ms.isEmpty then s.fns else s.fns.filter (fun fn => st.marks.contains (Node.fn f s.name fn.name))
-  if st.ext.contains (f, s.name) then { s with fns := fns, ext := [], ref := none } else { s with fns := fns }
+  if isCut cfg st (f, s.name) then { s with fns := fns, ext := [], ref := none } else { s with fns := fns }
 
 def sweepFile (p : Program) (cfg : Cfg) (ms : List Bytes) (st : St) (f : Nat) (file : File) : File :=
   { file with
@@ -409,7 +438,7 @@ def sweepFile (p : Program) (cfg : Cfg) (ms : List Bytes) (st : St) (f : Nat) (f
     structs := file.structs.filter (keepSL cfg st.marks f .struct)
     unions := file.unions.filter (keepSL cfg st.marks f .union)
     exceptions := file.exceptions.filter (keepSL cfg st.marks f .exception)
-    services := (file.services.filter (fun s => st.marks.contains (Node.svc f s.name))).map (sweepSvc ms st f) }
+    services := (file.services.filter (fun s => st.marks.contains (Node.svc f s.name))).map (sweepSvc cfg ms st f) }
 
 /-- `traversal` applied to every file.  The Go code only walks files still reachable from the root
 through kept includes; the others are unreachable afterwards, so their content is unobservable. -/
@@ -528,6 +557,7 @@ included file, that include and that base service are marked -/
 def SvcOK (p : Program) (M : Marks) (f : Nat) (svc : Service) : Prop :=
   (∀ fn ∈ svc.fns, Node.fn f svc.name fn.name ∈ M) ∧
   (svc.ext ≠ [] → ∀ rn i g, svc.ref = some (rn, i) → p.incTarget f i = some g →
-    Node.inc f i ∈ M ∧ ∀ b, findSvc p g rn = some b → Node.svc g b.name ∈ M)
+    Node.inc f i ∈ M ∧ ∀ b, findSvc p g rn = some b → Node.svc g b.name ∈ M) ∧
+  (svc.ext ≠ [] → svc.ref = none → ∀ b, findSvc p f svc.ext = some b → Node.svc f b.name ∈ M)
 
 end Trim
